@@ -200,6 +200,7 @@ structure CertOut where
   count : String
   inertia : Nat           -- number of exact inertia computations performed
   mus : Array Fix
+  below : Option Nat := none   -- #{eigenvalues < μ_max + δ}
 deriving Inhabited
 
 def log2Str (x scale : Fix) : String :=
@@ -266,6 +267,7 @@ def certBottom (n d : Nat) (A : Array (Array Fix)) (B : Option (Array (Array Fix
   let sorted := sortFix mus.toList
   let mut inertia := 0
   let mut countS := "-"
+  let mut below : Option Nat := none
   match sorted.getLast? with
   | none => pure ()
   | some muMax =>
@@ -275,6 +277,7 @@ def certBottom (n d : Nat) (A : Array (Array Fix)) (B : Option (Array (Array Fix
       countS := "singular"
       if why == "" then why := "inertia-singular"
     | some c =>
+      below := some c
       countS := s!"{c}/{d + t}"
       if c < d + t then
         if why == "" then why := s!"extremality(count {c} < {d + t})"
@@ -290,6 +293,6 @@ def certBottom (n d : Nat) (A : Array (Array Fix)) (B : Option (Array (Array Fix
               if why == "" then why := s!"extremality({cb} eigenvalues below the {idx + 1}-th returned one, expected at most {idx + t})"
           idx := idx + 1
   return { ok := why == "", why := why, orth := orthS, resid := residS, centre := centreS, count := countS,
-           inertia := inertia, mus := mus }
+           inertia := inertia, mus := mus, below := below }
 
 end TapkeeVerif.Cert
